@@ -23,7 +23,8 @@ Audit extension (construction routes, integrate method, size table):
     warm caches filled through the same or another call form, by the neighbouring entries, by the other three
     methods at the same degree / size; an earlier instance whose arrays the caller overwrote in place; method name
     upper / title / mixed case or omitted; degree omitted; non-integers (0-d array, float) that may be rejected).
-    Both tiers run all of them (19.5e3 constructions), each from cold caches, in forked workers.  The judge is
+    Both tiers run all of them (19502 constructions, 900 of them the two non-integer forms, which the pinned tree rejects),
+    each from cold caches, in forked workers (about 15 s CPU).  The judge is
     TLC (RoutesClean): the grid a route hands out must advertise a (degree, size) pair of the method's table, have
     that many points and weights, and be bit-for-bit the canonical grid of the advertised degree (the one whose
     harmonic obligations are discharged) - or else the harness discharges unit norm and harmonics on it directly
@@ -31,7 +32,8 @@ Audit extension (construction routes, integrate method, size table):
     any other exception = failed construction.  Landing on another entry than expected is C12's law (noted only).
   - Grid.integrate obligations (IntegrateDegrees): g.integrate(Y_lm(points)) = Expected(l, m) within the same TOL for
     all m of l <= min(d, 2) and of l = d where size (2 d + 1) <= 4e5.  It is the same sum in another summation
-    order: the two differ by <= n eps max|w Y| ~ 3e-10 worst case (measured <= 4e-15 ... see below), far inside the margin of TOL.
+    order: the two differ by <= n eps max|w Y| ~ 3e-10 worst case; measured max |g.integrate(Y_lm) - expected| over all passing
+    grids 1.3e-12 (thorough tier) - the same 3.5 orders below TOL as the moments; the 4 pi mutant is off by 3.3e0.
   - catalogue laws: the size table names the same (degree, size) pairs as the degree table; tables sorted by degree;
     RouteGeneratorLaws (every generated request lies in the interval the resolution rule maps to the entry).
 
